@@ -46,6 +46,16 @@ impl SimulationBoundary {
         }
     }
 
+    #[cfg(meshless_voro_verif)]
+    pub(crate) fn anchor_for_hooks(&self) -> DVec3 {
+        self.anchor
+    }
+
+    #[cfg(meshless_voro_verif)]
+    pub(crate) fn inverse_width_for_hooks(&self) -> DVec3 {
+        self.inverse_width
+    }
+
     pub fn iloc(&self, loc: DVec3) -> [i64; 3] {
         // Rescale the coordinates to fall within [1, 2):
         let loc = DVec3::splat(1.) + (loc - self.anchor) * self.inverse_width;
